@@ -278,6 +278,42 @@ def check_c04(res):
             if a != want:
                 res.violations.append(Violation("int-literal-wrong-value", docline(lit.encode()),
                                                 "literal %s: implementation %s, mathematical value %s" % (lit, a, want), cfg))
+        # big numbers fetched in every order, with other lazily materialised values fetched in between: what an accessor
+        # returns for a value must not change when OTHER values of the same document are materialised afterwards (the
+        # cleaned digit strings live in the document's arena next to each other; lengths around the 8-byte granule)
+        bl_, bm_ = [], []
+        BS = b"\x5c"
+        def _grp(n, r):
+            ds = "".join(r.choice("123456789") for _ in range(n))
+            if exp and n > 1:
+                cuts = sorted(set(r.randrange(1, n) for _ in range(r.randrange(1, 4))))
+                out_, prev = [], 0
+                for cpos in cuts:
+                    out_.append(ds[prev:cpos]); prev = cpos
+                out_.append(ds[prev:])
+                return "_".join(out_)
+            return ds
+        for n1 in (7, 8, 9, 15, 16, 17, 23, 24, 25, 32, 40):
+            for n2 in (2, 8, 16, 21):
+                for suf in ("N", "M"):
+                    a1 = _grp(max(n1, 20) if suf == "N" and not exp and n1 < 20 else n1, rnd) + suf
+                    a2 = _grp(n2, rnd) + suf
+                    a3 = _grp(24, rnd) + "." + _grp(8, rnd) + "M"
+                    dtxt = ("[%s %s %s " % (a1, a2, a3)).encode() + b'"q' + BS + b'nr" ' + (_grp(30, rnd) + "N").encode() + b"]"
+                    first = ";".join("D0.%d" % i for i in (0, 1, 2, 4))
+                    bl_.append("script P0=%s;%s;G0.3;%s;H0;%s" % (hexs(dtxt), first, first, first))
+                    bm_.append(dtxt)
+        bimpl, bmodel = correspond(res, cfg, "san", bl_, label="bignum-fetch-histories")
+        for dtxt, ln, a in zip(bm_, bl_, bimpl):
+            res.count("bignum-fetch-history")
+            res.nontrivial.add((cfg, "bigfetch", dtxt))
+            out = a.split(";")
+            if is_crash(a):
+                res.violations.append(Violation("int-literal-crash", ln[:3000], a[:200], cfg))
+            elif out[0] == "ok" and (out[1:5] != out[6:10] or out[1:5] != out[11:15]):
+                res.violations.append(Violation("big-number-changes-after-other-fetches", ln[:3000],
+                                                "%r: first %s | after a string fetch %s | after hashing %s"
+                                                % (dtxt[:80], ";".join(out[1:5])[:120], ";".join(out[6:10])[:120], ";".join(out[11:15])[:120]), cfg))
         res.sample({"cfg": cfg, "literal": lits[0]})
         # leaf calls
         leaf, meta = [], []
@@ -644,6 +680,34 @@ def check_c07(res):
             if is_crash(a) or out[:3] != ["ok", "ok", "ok"] or out[3:7] != ["1", "1", "0", "0"] or out[7] != out[8] or out[9:11] != ["1", "0"]:
                 res.violations.append(Violation("unordered-collection-equality-wrong", ln[:3000],
                                                 "%s of %d elements vs permuted / changed copy: %s" % (kind_, n_, ";".join(out[3:])[:200]), cfg))
+        # all-scalar sets and maps (the sort-based duplicate strategy: comparator order) of integers far apart, floats and
+        # strings: a permuted copy is equal both ways, a copy with one element REPEATED is not a value at all -- if the
+        # reader accepts it, equality stops being an equivalence (A = B but B /= A)
+        wl, wm = [], []
+        for n_ in (17, 18, 40, 200, 1000):
+            for fam in ("wideint", "widefloat", "str"):
+                els = c08_elements(rnd, cfg, fam, n_)
+                perm = list(els); rnd.shuffle(perm)
+                for _ in range(3):
+                    dupd = list(perm)
+                    dupd[rnd.randrange(n_)] = dupd[rnd.randrange(n_)] if rnd.random() < 0.5 else els[0]
+                    if len(set(dupd)) == len(dupd):
+                        dupd[0] = dupd[-1]
+                    for kind_, wrap in (("set", lambda xs: b"#{" + b" ".join(xs) + b"}"),
+                                        ("map", lambda xs: b"{" + b" ".join(x + b" 0" for x in xs) + b"}")):
+                        wl.append("script P0=%s;P1=%s;P2=%s;E0,1;E1,0;E0,2;E2,0" % (hexs(wrap(els)), hexs(wrap(perm)), hexs(wrap(dupd))))
+                        wm.append((kind_, fam, n_))
+        wimpl, wmodel = correspond(res, cfg, "san", wl, label="scalar-collections")
+        for (kind_, fam, n_), ln, a in zip(wm, wl, wimpl):
+            res.nontrivial.add((cfg, "scalar-coll", kind_, fam, n_, ln[-40:]))
+            res.count("scalar-collection")
+            out = a.split(";")
+            if is_crash(a) or out[:2] != ["ok", "ok"] or out[3:5] != ["1", "1"]:
+                res.violations.append(Violation("unordered-collection-equality-wrong", ln[:3000],
+                                                "%s of %d %s elements vs permuted copy: %s" % (kind_, n_, fam, ";".join(out)[:200]), cfg))
+            elif out[2] == "ok":
+                res.violations.append(Violation("collection-with-repeated-element-accepted-equality-not-an-equivalence", ln[:3000],
+                                                "%s of %d %s elements with one element repeated is accepted; equal both ways: %s" % (kind_, n_, fam, ";".join(out[5:7])), cfg))
         # equality / lookup answers before and after edn_string_get on either operand
         check_fetch_histories(res, cfg, "equality-or-lookup-depends-on-string-fetch")
         # deeply nested values: two reads of the same document must be equal with equal hashes at every depth
@@ -725,6 +789,12 @@ def c08_elements(rnd, cfg, kind, count):
             n = [3, 40, 300, 5000][i % 4] if i < 8 else 20 + i % 7
             out.append(('"' + "p" * n + "%d" % i + '"').encode())
         return out
+    if kind == "bignums":
+        out = []
+        for i in range(count):
+            out.append(rnd.choice([("%d.5M" % i).encode(), ("%dM" % (i * 3)).encode(), ("1234567890123456789%dN" % i).encode(), ("%dN" % i).encode(),
+                                   str(i * 5 - count).encode(), (":b%d" % i).encode(), ("%d.75" % i).encode()]))
+        return list(dict.fromkeys(out)) + [(":pad%d" % i).encode() for i in range(count - len(set(out)))]
     if kind == "scalars":
         out = []
         for i in range(count):
@@ -772,8 +842,8 @@ def check_c08(res):
         lines, meta = [], []
         twins = c08_twins(cfg)
         for count in counts:
-            kinds_ = ["int", "kw", "str", "vec", "mixed", "wideint", "widefloat", "longstr", "scalars"] if thorough else \
-                (["int", "mixed", "vec", "wideint", "scalars", "longstr"] if count < 100 else ["mixed", "wideint", "scalars"])
+            kinds_ = ["int", "kw", "str", "vec", "mixed", "wideint", "widefloat", "longstr", "scalars", "bignums"] if thorough else \
+                (["int", "mixed", "vec", "wideint", "scalars", "longstr", "bignums"] if count < 100 else ["mixed", "wideint", "scalars", "bignums"])
             for kind in kinds_:
                 els = c08_elements(rnd, cfg, kind, count)
                 # no duplicates: must be accepted, for 2 shuffles
@@ -1076,6 +1146,19 @@ def c05_literals(rnd, n, thorough):
         if s[0] in "+-":
             sign = ""
         out.append(sign + s)
+    # the digit count compensates the written exponent: values in the double range written with exponents far outside it
+    for E in (-330, -700, -1001, -1100, -2000, -5000):
+        for T in (-330, -324, -323, -308, -200, -1, 0, 5, 300, 308, 309):
+            L = T - E + 1
+            if 1 <= L <= 6000:
+                m = rnd.choice("123456789") + "".join(rnd.choice("0123456789") for _ in range(min(L - 1, 30))) + "0" * max(0, L - 31)
+                out.append(rnd.choice(["", "-"]) + m[:L] + "e%d" % E)
+                out.append(rnd.choice(["", "-"]) + m[:L] + ".0e%d" % E)
+    for E in (330, 700, 1001, 1100, 2000, 5000):
+        for T in (-330, -324, -308, -1, 0, 300, 308, 309):
+            Z = E - T - 1
+            if 0 <= Z <= 6000:
+                out.append(rnd.choice(["", "-"]) + "0." + "0" * Z + str(rnd.randrange(1, 10 ** 6)) + "e%s%d" % (rnd.choice(["", "+"]), E))
     return out
 
 
@@ -1473,6 +1556,8 @@ def check_c10(res):
             head = a.split(" ")[0]
             if head in ("NEITHER", "BOTH") or is_crash(a) or (head == "ERR" and " nomsg " in a):
                 res.violations.append(Violation("value-xor-error-broken:" + head, ln, a[:100], cfg))
+        if cfg[1] == "1":
+            c10_textblock_prefixes(res, cfg)
         res.sample({"cfg": cfg, "doc": cases[0][0].decode(errors="replace")})
 
 
@@ -1613,6 +1698,35 @@ def check_c01(res):
             if is_crash(a):
                 res.violations.append(Violation("uninitialised-read:" + refs.crash_class(a), ln, a, cfg))
         res.sample({"cfg": cfg, "doc": lines[3][:100]})
+
+
+def c10_textblock_prefixes(res, cfg):
+    """every proper prefix of a text block whose only unescaped triple quote is its closing delimiter is ill-formed"""
+    BS = b"\x5c"
+    pieces = [b"ab", b" ", b"\n", BS + b'"""', b'"x', b'""y', b"  z", BS + b"n", b"q" + BS + b'"""', BS + b'"""' + BS + b'"""']
+    rnd = random.Random(res.seed * 3 + 1)
+    blocks = [b'"""\n' + BS + b'"""' + b'"""', b'"""\nab' + BS + b'"""' + b'"""', b'"""\n  a\n  ' + BS + b'"""' + b'\n  """']
+    for _ in range(12):
+        body = b"".join(rnd.choice(pieces) for _ in range(rnd.randrange(1, 8)))
+        if body.endswith(b'"'):
+            body += b" "
+        blocks.append(b'"""\n' + body + b'"""')
+    lines, meta = [], []
+    for blk in blocks:
+        for (pre, post) in ((b"", b""), (b"[1 ", b"]"), (b"{:k ", b"}")):
+            full = pre + blk + post
+            for cut in range(len(pre) + 4, len(pre) + len(blk)):       # from the line feed on, the block has begun
+                lines.append(docline(full[:cut])); meta.append((full, cut, "nul"))
+                lines.append(docline(full, length=cut)); meta.append((full, cut, "len"))
+    impl, model = correspond(res, cfg, "san", lines, label="text-block-prefixes")
+    for (full, cut, how), ln, a in zip(meta, lines, impl):
+        res.count("text-block-prefix")
+        res.nontrivial.add((cfg, "tbprefix", full, cut, how))
+        if is_crash(a):
+            res.violations.append(Violation("ill-formed-crash", ln[:3000], a[:200], cfg))
+        elif not a.startswith("ERR "):
+            res.violations.append(Violation("truncated-text-block-accepted", ln[:3000],
+                                            "%r cut after %d bytes (%s): %s" % (full[:80], cut, how, a[:120]), cfg))
 
 
 # =============================================================================== C11
@@ -2077,7 +2191,8 @@ def c16_corpus(cfg):
             b"#{" + b" ".join(("#t %d" % (i % 21)).encode() for i in range(22)) + b"}",
             b"#{" + b" ".join(("%d00000000000000000000N" % (i % 17)).encode() for i in range(18)) + b"}"]
     if clj:
-        docs += [b"^:a [1]", b"^{:a 1} ^:b ^\"T\" ^[x] (1)", b"#:n{:a 1 :b/c 2 :_/d 3}", b"1/2", b"99999999999999999999/3", b"0x10", b"[^:a]"]
+        docs += [b"^:a ^:b x", b"[[1] ^:a ^:b x]", b"^\"T\" ^:b [1]", b"^[p] ^:a ^sym {}", b"^sym ^\"S\" x", b"{:k ^:a ^:b [1]}", b"^:a ^:b ^:c ^:d (1)",
+                 b"^:a [1]", b"^{:a 1} ^:b ^\"T\" ^[x] (1)", b"#:n{:a 1 :b/c 2 :_/d 3}", b"1/2", b"99999999999999999999/3", b"0x10", b"[^:a]"]
     if exp:
         docs += [b'"""\n  a\n  b\n  """', b'"""\n' + b"".join(b" l%d\n" % i for i in range(20)) + b' """', b'"""\n a \\""" b"""',
                  b'"""\n abc', b"1_000", b"1_0N", b"[1_0.5M]",
@@ -2158,6 +2273,11 @@ def check_c15(res):
         docs += [g.document(3) for _ in range(100)] + [g.corrupt(g.document(3)) for _ in range(100)]
         docs += c16_corpus(cfg)
         docs += [b"#{" + b" ".join(str(i % 900).encode() for i in range(1100)) + b"}", b"", b"  ; only a comment", b"\n\n\n]"]
+        for n_ in (300, 1000, 2100, 4200):
+            big = b"[" + b" ".join(b"1" for _ in range(n_)) + b"]"
+            bigs = b"[" + b" ".join(b'"s%d"' % i for i in range(n_ // 4)) + b"]"
+            docs += [b"[:a #_" + big + b" :b]", b"#_" + big + b" 1", b"[#_" + big + b" #_" + bigs + b"]", b"{:k #_" + bigs + b" 1}",
+                     b"[:a #_" + big + b" " + b" ".join(b"%d" % i for i in range(n_ // 3)) + b"]", b"#_" + big, b"[#_#_" + big + b" " + bigs + b" x]"]
         # tokens whose length sits on / next to every fixed-size buffer and threshold the source declares: a scratch
         # copy taken at one side of a threshold must be released at that same side
         for L in c01_boundary_lengths():
@@ -2243,6 +2363,20 @@ def check_c18(res):
                         b"#{" + q + b" " + u + b"}", b"[" + q + b" " + u + b"]", b"{[" + q + b"] 1 [" + u + b"] 2}", b"{" + q + b" 1 " + q + b" 2}",
                         b"(" + q + b")", q, b"{:k " + q + b"}", b"#t {" + q + b" 1 " + u + b" 2}", b"#_{" + q + b" 1} {" + q + b" 1 " + u + b" 2}"]
     special += [b"{:_ 1 :_/_ 2}", b"{_ 1 _/_ 2 :_ 3}", b"{:a/_ 1 :a 2 :_ 3}"]
+    rnd18 = random.Random(res.seed * 5 + 3)
+    for n_ in (16, 17, 18, 40, 300, 1000, 1001):
+        for fam in ("bignums", "scalars", "wideint"):
+            els = c08_elements(rnd18, "00", fam, n_)
+            special.append(b"#{" + b" ".join(els) + b"}")
+            for _ in range(2):
+                dupd = list(els)
+                i_, j_ = rnd18.sample(range(n_), 2)
+                dupd[j_] = dupd[i_]
+                special.append(b"#{" + b" ".join(dupd) + b"}")
+                special.append(b"{" + b" ".join(x + b" 0" for x in dupd) + b"}")
+        bd = [b"1.5M", b"2.5M", b"1.5M"] + [b"%d" % i for i in range(1, n_ - 2)]
+        special.append(b"#{" + b" ".join(bd) + b"}")
+        special.append(b"#{" + b" ".join([b"7N", b"12345678901234567890", b"7N"] + [b":k%d" % i for i in range(n_ - 3)]) + b"}")
     slines = [docline(d) for d in special]
     souts = {}
     for cfg in CFGS:
@@ -2409,6 +2543,29 @@ def check_c19(res):
         for d in [b"[^:a]", b"[^]", b"{:k ^:a}", b"(^{:a 1})", b"^", b"^:a", b"#{^:a}", b"[^:a ^:b]"]:
             mlines.append(docline(d))
             mmeta.append(("missing", d, None, None, None))
+        # handler results as metadata targets: id returns the operand, w wraps it in a vector, k returns a keyword, x an external value
+        hreg = "id:0,w:1,k:5,x:4"
+        hl_, hm_ = [], []
+        for (tagname, operand, accept) in (("id", "[1]", True), ("id", "5", False), ("id", "sym", True), ("w", "5", True), ("k", "[1]", False),
+                                            ("x", "[1 2]", False), ("x", "7", False), ("nope", "[1]", True), ("nope", "5", True)):
+            for ann in ("^:a ", "^:a ^{:b 1} ", "^String "):
+                for pos in ("%s", "[0 %s]", "{:x %s}"):
+                    for mode in (0, 1):
+                        if tagname == "nope" and mode == 1:
+                            acc = operand in ("[1]",)          # UNWRAP: the target is the operand itself
+                        else:
+                            acc = accept
+                        d = (pos % (ann + "#" + tagname + " " + operand)).encode()
+                        hl_.append(docline(d, reg=hreg, mode=mode)); hm_.append((d, acc))
+        himpl, hmodel = correspond(res, cfg, "san", hl_, label="metadata-on-handler-results")
+        for (d, acc), ln, a in zip(hm_, hl_, himpl):
+            res.count("meta:handler-result")
+            res.nontrivial.add((cfg, "metahandler", ln[-60:]))
+            if is_crash(a):
+                res.violations.append(Violation("metadata-crash", ln, a, cfg))
+            elif a.startswith("OK ") != acc:
+                res.violations.append(Violation("metadata-kind-gate-wrong-on-handler-result", ln,
+                                                "%r: %s, expected %s" % (d, a[:100], "accepted" if acc else "rejected"), cfg))
         impl, model = correspond(res, cfg, "san", mlines, label="metadata")
         plain_lines, plain_idx = [], []
         for idx, (mm, ln, a) in enumerate(zip(mmeta, mlines, impl)):
@@ -2731,6 +2888,9 @@ def check_c17(res):
         for n in (17, 40, 200, 1001, 1200):
             docs.append(b"#{" + b" ".join(rnd.choice([b"[%d]" % i, b"%d" % i, b"\"s%d\"" % i, b":k%d" % i, b"(%d x)" % i]) for i in range(n)) + b"}")
             docs.append(b"#{" + b" ".join(b"[%d]" % (i % (n - 1)) for i in range(n)) + b"}")
+        for nd in (300, 511, 512, 600, 2000):
+            lit = b"1." + bytes(rnd.choice(b"0123456789") for _ in range(nd - 2))
+            docs += [b"[" + lit + b" 2]", lit + b" :after", b"{:k " + lit + b" :j -" + lit + b"e-3}", b"[" + lit + b"]", lit]
         regs = ["-", "inst:0,uuid:1,x:2", "my/tag:1,x:0"]
         lines = [docline(d, reg=rnd.choice(regs), mode=rnd.randrange(3), eof=rnd.randrange(2)) for d in docs]
         impl, model = correspond(res, cfg, "san", lines, label="docs")
@@ -2790,7 +2950,8 @@ def check_c17(res):
             return ("#{" + " ".join(els) + "}").encode()
         def kw_map(n, seed_):
             return ("{" + " ".join(":k%d-%d \"v\\n%d\"" % (seed_, i, i) for i in range(n)) + "}").encode()
-        heavy = [scalar_set(n, 100 + j) for j, n in enumerate([17, 40, 300, 600, 1000, 1001, 1500])] + \
+        longf = [b"[" + b"1." + bytes(random.Random(77 + k).choice(b"0123456789") for _ in range(nd)) + b" 2 3]" for k, nd in enumerate([511, 512, 600, 3000])]
+        heavy = longf + [scalar_set(n, 100 + j) for j, n in enumerate([17, 40, 300, 600, 1000, 1001, 1500])] + \
                 [kw_map(n, j) for j, n in enumerate([17, 200, 999])] + \
                 [b"#{" + b" ".join(b"[%d]" % i for i in range(300)) + b"}"]
         for _ in range(40 if thorough else 12):
@@ -3046,6 +3207,28 @@ def check_c02(res):
                 if stop:
                     break
             if stop:
+                break
+        # (c') the duplicate check compares elements with the depth-capped structural equality: two elements that are long
+        # chains of one-element collections differing only at the innermost position make it walk both chains once -- the
+        # read must come back in time linear in the depth (a comparison that retries a failed pair doubles per level)
+        cl_, cm_ = [], []
+        for (o_, c_) in ((b"#{", b"}"), (b"[", b"]"), (b"{:k ", b"}"), (b"(", b")"), (b"#{[", b"]}")):
+            for d in (4, 12, 20, 28, 40, 60, 90):
+                a1 = o_ * d + b"1" + c_ * d
+                a2 = o_ * d + b"2" + c_ * d
+                for doc in (b"#{" + a1 + b" " + a2 + b"}", b"{" + a1 + b" 1 " + a2 + b" 2}", b"#{" + a1 + b" " + a2 + b" " + o_ * d + b"3" + c_ * d + b"}"):
+                    cl_.append(docline(doc)); cm_.append((o_, d))
+        for part_start in range(0, len(cl_), 15):
+            part = cl_[part_start:part_start + 15]
+            outs_ = runner.run_impl(cfg, "prod", part, timeout=60, per_case_cpu=10, max_crashes=1)
+            for (o_, d), ln, a in zip(cm_[part_start:part_start + 15], part, outs_):
+                res.count("chain-elements")
+                res.nontrivial.add((cfg, "chains", o_, d, ln[-20:]))
+                res.evaluations += 1
+                if is_crash(a) or a.startswith("MISSING"):
+                    res.violations.append(Violation("read-does-not-return-in-time", ln[:3000],
+                                                    "two chains of %r nested %d deep, differing innermost, as elements / keys: %s" % (o_, d, a[:100]), cfg))
+            if any(is_crash(a) or a.startswith("MISSING") for a in outs_):
                 break
         # (d) generated documents under the limits
         g = Gen(res.seed * 13 + int(cfg, 2), clj=cfg[0] == "1", exp=cfg[1] == "1")
